@@ -108,6 +108,12 @@ def width_case(M, npts, d, ndir, vectorized, which, scale=2.0):
         REC.pop("draws", None)
         w1 = compute_mean_width(np.asarray(X) * s, **kw)
         goals["mean width is homogeneous of degree one (same seed)"] = M.eq(w1, w0 * s)
+    elif which == "single":
+        goals["a cloud of identical points has mean width 0"] = M.eq(w0, 0)
+        if npts == 1:
+            REC.pop("draws", None)
+            w1 = compute_mean_width(np.vstack([np.asarray(X), np.asarray(X)]).view(symnp.SymArray) if M.symbolic else np.vstack([X, X]), **kw)
+            goals["repeating the point does not change the width"] = M.eq(w1, w0)
     elif which == "monotone":
         p = M.real("p", (1, d))
         REC.pop("draws", None)
@@ -231,6 +237,10 @@ def cases(tier, seed):
         add(f"mean width 3 points 2-D 2 directions scale x{scale}", "width_case", npts=3, d=2, ndir=2, vectorized=False, which="scale", scale=scale)
         add(f"mean width 4 points 3-D 2 directions scale x{scale} vectorized", "width_case", npts=4, d=3, ndir=2, vectorized=True, which="scale", scale=scale)
         add(f"gamut metric scale invariance x{scale}", "gamut_case", which="scale", scale=scale)
+    for d in (2, 3):
+        # a single sample with several features (degenerate cloud): width 0, and adding a point cannot decrease it
+        add(f"mean width single point {d}-D", "width_case", npts=1, d=d, ndir=2, vectorized=False, which="single")
+        add(f"mean width single point {d}-D monotone", "width_case", npts=1, d=d, ndir=2, vectorized=True, which="monotone")
     add("mean width 1-D", "width1d_case", npts=3)
     add("gamut metric relative to itself", "gamut_case", which="self")
     for n in (2, 3):
